@@ -38,11 +38,13 @@ def run(ctx):
     fd = sba.calls(r"paths::find_do_file")
     fork = sba.calls(anchors.FORK_START)
     commits = sba.calls(r"state::ProcessTransaction::commit")
-    common.mpt(ctx, "R2.1", "%s|zap_deps1-before-find_do_file" % SS.key, SS, [0], fd, z1,
-               "old edges are marked before the .do search re-records the .do edges", "find_do_file can run before zap_deps1: the fresh .do edges would be marked for deletion")
-    common.mpt(ctx, "R2.1", "%s|zap_deps1-before-fork" % SS.key, SS, [0], fork, z1, "every path to the fork marks the old edges", "a build can be forked without marking the old dependency list")
-    common.mpt(ctx, "R2.1", "%s|commit-between-search-and-fork" % SS.key, SS, fd, fork, commits, "the bookkeeping transaction is committed before the fork",
-               "the child can start before the start-of-build bookkeeping is committed", incl=False)
+    # (feasible paths, core.FA: when the override / static / no-rule decisions and the .do search are a helper returning a
+    # "run this .do | already settled" value, the settled results - reached without zap_deps1 - do not continue to the fork)
+    common.mpt_f(ctx, "R2.1", "%s|zap_deps1-before-find_do_file" % SS.key, SS, [0], fd, z1,
+                 "old edges are marked before the .do search re-records the .do edges", "find_do_file can run before zap_deps1: the fresh .do edges would be marked for deletion")
+    common.mpt_f(ctx, "R2.1", "%s|zap_deps1-before-fork" % SS.key, SS, [0], fork, z1, "every path to the fork marks the old edges", "a build can be forked without marking the old dependency list")
+    common.mpt_f(ctx, "R2.1", "%s|commit-between-search-and-fork" % SS.key, SS, fd, fork, commits, "the bookkeeping transaction is committed before the fork",
+                 "the child can start before the start-of-build bookkeeping is committed", incl=False)
 
     R = anchors.record_new_state(prog)
     rba = BA.of(R)
@@ -58,7 +60,11 @@ def run(ctx):
     ad = prog.one(r"state::File::add_dep")
     dp = prog.one(r"state::File::deps")
     init = prog.one(r"state::ProcessState::init")
-    s1, s2, sa, sd = sql_of(b1), sql_of(b2), sql_of(ad), sql_of(dp) + [s for (_, _, s, _) in str_consts(dp) if "Deps" in s]
+    # the statement each of the three bodies applies to table Deps (a body may also carry statements on other tables,
+    # e.g. add_dep the Files lookup of its dependency when that lookup is spelled out in it instead of called)
+    def on_deps(b):
+        return [s for s in sql_of(b) if sqlc.table(s) == "deps" and sqlc.kind(s) in ("insert or replace into", "insert into", "update", "delete from")]
+    s1, s2, sa, sd = on_deps(b1), on_deps(b2), on_deps(ad), sql_of(dp) + [s for (_, _, s, _) in str_consts(dp) if "Deps" in s]
     schema = [s for s in sql_of(init) if sqlc.kind(s) == "create table" and sqlc.table(s) == "deps"]
     ok = len(s1) == 1 and len(s2) == 1 and len(sa) == 1 and len(schema) == 1
     if ctx.ob("R2.3", "sql-literals-found", ok, detail="zap_deps1=%d zap_deps2=%d add_dep=%d schema=%d" % (len(s1), len(s2), len(sa), len(schema))):
@@ -76,8 +82,16 @@ def run(ctx):
                where=ad.span, detail="%s" % sqlc.norm(sa[0]))
         ctx.ob("R2.3", "schema|flag-column-declared", flag in cols and {"target", "source", "mode"} <= set(cols), where=init.span, detail="Deps columns: %s" % cols)
         # parameters: zap_deps1 passes `true` for the flag, add_dep passes `false`
-        ctx.ob("R2.3", "zap_deps1|flag-param-true", _bool_params(b1) == [True], where=b1.span, detail="bool parameters: %s" % _bool_params(b1))
-        ctx.ob("R2.3", "add_dep|flag-param-false", _bool_params(ad)[-1:] == [False], where=ad.span, detail="bool parameters: %s" % _bool_params(ad))
+        # tied to the statement and to the column: the value bound to the flag column's placeholder in the parameter
+        # array handed to the call that executes this very literal (not "the bool constants of the body in block order")
+        p1 = _stmt_params(b1, s1[0])
+        i1 = flag1.index(flag) if flag in flag1 else None
+        v1 = p1[i1] if p1 is not None and i1 is not None and i1 < len(p1) else "?"
+        ctx.ob("R2.3", "zap_deps1|flag-param-true", v1 is True, where=b1.span, detail="parameter bound to %s: %s (all: %s)" % (flag, v1, p1))
+        pa = _stmt_params(ad, sa[0])
+        ia = inscols.index(flag) if flag in inscols else None
+        va = pa[ia] if pa is not None and ia is not None and ia < len(pa) else "?"
+        ctx.ob("R2.3", "add_dep|flag-param-false", va is False, where=ad.span, detail="parameter bound to %s: %s (all: %s)" % (flag, va, pa))
         dsel = [s for s in sd if "deps" in sqlc.norm(s)]
         ok = any("where target=?" in sqlc.norm(s) or "where target = ?" in sqlc.norm(s) for s in dsel)
         ctx.ob("R2.3", "deps|select-by-target", ok, where=dp.span, detail="deps() selects from Deps by target")
@@ -91,34 +105,35 @@ def run(ctx):
     dirt.memoisation(ctx, "R2.4")
 
     # ---- R2.5
+    # Stated per side of the one existence test, over feasible paths: how many add_dep call sites the source spells
+    # (one per side, or one shared site fed by `let mode = if exists { Modified } else { Created }`) is not the
+    # property; what each side records is.
+    from core import FA
     F = prog.one(r"paths::find_do_file")
     fba = BA.of(F)
+    ffa = FA.of(F)
     ex = fba.switches_on_call(r"std::path::Path::exists")
     adds = fba.calls(r"state::File::add_dep")
-    if ctx.ob("R2.5", "%s|anchors" % F.key, len(ex) == 1 and len(adds) == 2 and bool(fba.calls(r"paths::possible_do_files")), where=F.span,
+    if ctx.ob("R2.5", "%s|anchors" % F.key, len(ex) == 1 and len(adds) >= 1 and bool(fba.calls(r"paths::possible_do_files")), where=F.span,
               detail="exists switch=%d add_dep=%d possible_do_files=%d" % (len(ex), len(adds), len(fba.calls(r"paths::possible_do_files")))):
         sw, t_t, f_t, cbb = ex[0]
-        modes = {}
-        for a in adds:
-            c = op_const(F.blocks[a]["term"]["args"][2])
-            v = c.get("variant") if c else None
-            if v is None:
-                dd = fba.single_def(op_local(F.blocks[a]["term"]["args"][2]))
-                if dd and dd[0] == "stmt" and dd[3]["k"] == "agg":
-                    v = dd[3].get("variant")
-            modes[a] = v
-        t_adds = [a for a in adds if fba.edge_dominates((sw, t_t), a)]
-        f_adds = [a for a in adds if fba.edge_dominates((sw, f_t), a)]
-        ok = len(t_adds) == 1 and len(f_adds) == 1 and modes[t_adds[0]] == "Modified" and modes[f_adds[0]] == "Created"
-        ctx.ob("R2.5", "%s|existing=>Modified|missing=>Created" % F.key, ok, where=ctx.where(F, sw), detail="modes: exists-side %s, missing-side %s" % ([modes[a] for a in t_adds], [modes[a] for a in f_adds]))
-        somes = common.blocks_with_agg(F, r"core::option::Option", "Some")
         nexts = fba.calls(r".*::iterator::Iterator>?::next")
-        p = fba.path([t_t], nexts, incl=True)
-        ok = p is None and any(fba.edge_dominates((sw, t_t), s) for s in somes)
+
+        def side_modes(start):
+            """{add_dep block: modes it may record} for the add_dep sites met from this side before the next candidate."""
+            region = ffa.reach_incl([start], avoid=frozenset(nexts))
+            return {a: common.reaching_variants(F, [start], a, F.blocks[a]["term"]["args"][2], avoid=nexts) for a in adds if a in region}
+        t_modes, f_modes = side_modes(t_t), side_modes(f_t)
+        ok = bool(t_modes) and bool(f_modes) and all(m == {"Modified"} for m in t_modes.values()) and all(m == {"Created"} for m in f_modes.values())
+        ctx.ob("R2.5", "%s|existing=>Modified|missing=>Created" % F.key, ok, where=ctx.where(F, sw),
+               detail="modes: exists-side %s, missing-side %s" % ([sorted(str(x) for x in m) for m in t_modes.values()], [sorted(str(x) for x in m) for m in f_modes.values()]))
+        somes = common.blocks_with_agg(F, r"core::option::Option", "Some")
+        p = ffa.path([t_t], nexts, incl=True)
+        ok = p is None and any(ffa.edge_dominates((sw, t_t), s) for s in somes)
         ctx.ob("R2.5", "%s|first-existing-wins" % F.key, ok, where=ctx.where(F, sw), detail="the existing side returns Some(candidate) without looking further" if ok else "search continues past an existing candidate")
-        common.mpt(ctx, "R2.5", "%s|every-missing-candidate-recorded" % F.key, F, [f_t], nexts + common.ok_returns(F), f_adds,
-                   "every candidate found missing gets its Created edge before the search goes on", "a missing higher-priority candidate can be skipped without a Created edge: creating it later does not rebuild the target")
-        p = fba.path([f_t], common.ok_returns(F), avoid=frozenset(nexts), incl=True)
+        common.mpt_f(ctx, "R2.5", "%s|every-missing-candidate-recorded" % F.key, F, [f_t], nexts + common.ok_returns(F), sorted(f_modes),
+                     "every candidate found missing gets its Created edge before the search goes on", "a missing higher-priority candidate can be skipped without a Created edge: creating it later does not rebuild the target")
+        p = ffa.path([f_t], common.ok_returns(F), avoid=frozenset(nexts), incl=True)
         ctx.ob("R2.5", "%s|missing=>continue" % F.key, p is None, where=ctx.where(F, sw), detail="a missing candidate continues the search")
         # add_dep path operand = do_dir.join(do_file) tested by exists
         ex_arg, _, _ = backward_direct(F, op_local(F.blocks[cbb]["term"]["args"][0]))
@@ -129,16 +144,70 @@ def run(ctx):
         ctx.ob("R2.5", "%s|edge-is-for-the-tested-path" % F.key, same, where=F.span, detail="the recorded edge names the path whose existence was tested")
 
     # ---- R2.6
+    from core import FA
+    sfa = FA.of(SS)
     ss_static = sba.calls(r"state::File::set_static")
-    fn = [i for i in sba.calls(r"state::File::from_name") if any(sba.dominates(x, i) for x in fd)]
+    fn = [i for i in sba.calls(r"state::File::from_name") if any(sfa.dominates(x, i) for x in fd)]
     ok = False
     if fn and fork:
         dof = SS.blocks[fn[0]]["term"].get("target")
-        st = [i for i in ss_static if sba.dominates(fn[0], i)]
-        sv = [i for i in sba.calls(r"state::File::save") if st and sba.dominates(st[0], i)]
-        cm = [i for i in commits if sv and sba.dominates(sv[0], i)]
-        ok = bool(st and sv and cm) and all(sba.dominates(cm[0], f) for f in fork)
+        st = [i for i in ss_static if sfa.dominates(fn[0], i)]
+        sv = [i for i in sba.calls(r"state::File::save") if st and sfa.dominates(st[0], i)]
+        cm = [i for i in commits if sv and sfa.dominates(sv[0], i)]
+        ok = bool(st and sv and cm) and all(sfa.dominates(cm[0], f) for f in fork)
     ctx.ob("R2.6", "%s|do-file-static-saved-committed" % SS.key, ok, where=SS.span, detail="from_name(do_path) -> set_static -> save -> commit -> fork" if ok else "the chosen .do is not recorded as a static source before the fork")
+
+
+def _stmt_params(body, sql):
+    """The parameter list bound to the SQL literal `sql` in `body`: the elements, in order, of the array handed to the
+    call that receives this literal - True / False for a bool constant, None for anything else. None when the call or
+    its parameter array cannot be located."""
+    ba = BA.of(body)
+    lit_locals = set()
+    lit_blocks = set()
+    for (bb, where, text, _) in str_consts(body):
+        if text != sql:
+            continue
+        if where == "term":
+            lit_blocks.add(bb)
+        else:
+            st = body.blocks[bb]["stmts"][where]
+            if not st["place"]["p"]:
+                lit_locals.add(st["place"]["l"])
+    for c in ba.all_calls():
+        t = body.blocks[c]["term"]
+        hit = None
+        for n, a in enumerate(t["args"]):
+            if c in lit_blocks and const_str(a) == sql:
+                hit = n
+            l = op_local(a)
+            if l is not None and lit_locals & set(backward_direct(body, l)[0]):
+                hit = n
+        if hit is None:
+            continue
+        for n, a in enumerate(t["args"]):
+            l = op_local(a)
+            if n == hit or l is None:
+                continue
+            arrays = [o for o in backward_direct(body, l)[1] if o[0] == "agg" and o[2].get("agg") == "array"]
+            if len(arrays) != 1:
+                continue
+            out = []
+            for o in arrays[0][2]["ops"]:
+                v = None
+                c_ = op_const(o)
+                sl = set() if op_local(o) is None else backward_direct(body, op_local(o))[0]
+                consts = [c_] if c_ is not None else []
+                for x in sl:
+                    for d in ba.defs.get(x, []):
+                        if d[0] == "stmt" and d[3]["k"] == "use" and op_const(d[3]["op"]) is not None:
+                            consts.append(op_const(d[3]["op"]))
+                bools = [k["bool"] for k in consts if "bool" in k]
+                if len(bools) == 1 and len(consts) == 1:
+                    v = bools[0]
+                out.append(v)
+            return out
+    return None
 
 
 def _bool_params(body):
